@@ -32,7 +32,8 @@ def sim_job(profile, count, name=None, budget_ms=None):
         return out
 
     def replay(rep, path):
-        return [exe, "replay", "--profile", rep.get("profile", profile), "--scenario-seed", str(rep["scenario_seed"]), "--verbose"]
+        return [exe, "replay", "--profile", rep.get("profile", profile), "--scenario-seed", str(rep["scenario_seed"]),
+                "--index", str(rep.get("index", 0)), "--verbose"]
 
     return {
         "name": name or f"vq-sim:{profile}x{count}",
@@ -41,6 +42,44 @@ def sim_job(profile, count, name=None, budget_ms=None):
         "shards": shards,
         "replay": replay,
     }
+
+
+def bin_job(pkg, args_fn, name, timeout=None, replay=None, engine=None):
+    """a native harness binary; args_fn(seed, nproc) -> list of argument lists (one per shard)"""
+    exe = os.path.join(TARGET, "debug", pkg)
+    job = {
+        "name": name,
+        "engine": engine or pkg,
+        "build": {"kind": "native", "packages": [pkg]},
+        "shards": lambda seed, nproc: [[exe] + [str(x) for x in a] for a in args_fn(seed, nproc)],
+    }
+    if timeout:
+        job["timeout"] = timeout
+    if replay:
+        job["replay"] = lambda rep, path: [exe] + replay(rep, path)
+    return job
+
+
+MIRI_ENV = {
+    "CARGO_TARGET_DIR": os.path.join(ROOT, "target-miri"),
+    "MIRIFLAGS": "-Zmiri-disable-isolation",
+}
+
+
+def miri_job(pkg, args_fn, name, warm_args, timeout=None):
+    """the same binary interpreted by Miri (UB / data-race / borrow reports abort the process)"""
+    base = ["cargo", "+nightly", "miri", "run", "-q", "--offline", "-p", pkg, "--"]
+    job = {
+        "name": name,
+        "engine": pkg,
+        "sanitizer": "miri",
+        "env": MIRI_ENV,
+        "build": {"kind": "cmd", "cmd": base + [str(x) for x in warm_args], "env": MIRI_ENV},
+        "shards": lambda seed, nproc: [base + [str(x) for x in a] for a in args_fn(seed, nproc)],
+    }
+    if timeout:
+        job["timeout"] = timeout
+    return job
 
 
 SIM_ASSUME = [
@@ -91,6 +130,21 @@ PROPS = {
         "min_quick": {"evaluations": 900, "c03.frames_checked": 500_000, "c03.tight_stream_limit": 10_000, "c03.resets_checked": 1000},
         "min_thorough": {"evaluations": 30000, "c03.frames_checked": 10_000_000},
     },
+    "C06": {
+        "level": "exploration",
+        "rule": "each evaluation is one seeded end-to-end simulation in which an attacker inside the network injects, once every connection is "
+                "established, 100-600 datagrams between the genuine ones: random bytes behind a live header+connection id, copies with 1-8 "
+                "flipped bits, truncated / extended / spliced copies, copies carrying another flow's connection id, exact replays (at once, "
+                "delayed up to 2 s, one victim replayed 50-300 times). Two thirds of the scenarios leave genuine traffic untouched (then "
+                "nothing at all may fail), one third is lossy/reordering as well. Non-trivial = datagrams were injected; distinct = hash of "
+                "configuration x mechanisms observed.",
+        "assumptions": SIM_ASSUME + ["one cipher suite (the one the default TLS provider negotiates); constant-time behaviour is not observable",
+                                     "forgeries target 1-RTT (short header) packets of established connections"],
+        "tiers": {"quick": [sim_job("C06", 640)], "thorough": [sim_job("C06", 16000)]},
+        "min_quick": {"evaluations": 600, "c06.injected_datagrams": 200_000, "c06.rejected_by_authentication": 40_000,
+                      "c06.replays_suppressed": 80_000, "c06.pure_injection_runs": 350, "c06.authenticated_packets": 300_000},
+        "min_thorough": {"evaluations": 15000, "c06.injected_datagrams": 5_000_000},
+    },
     "C08": {
         "level": "exploration",
         "rule": "each evaluation is one seeded end-to-end simulation on a lossy, reordering, duplicating (not corrupting) network. "
@@ -126,6 +180,40 @@ PROPS = {
         "min_quick": {"evaluations": 900, "c11.unvalidated_datagrams_checked": 2500, "c11.probes_delivered": 3000,
                       "c11.probe_reply.stateless-reset-like": 500, "c11.client_initial_datagrams": 4000, "c11.runs_server_at_limit": 20},
         "min_thorough": {"evaluations": 23000, "c11.unvalidated_datagrams_checked": 60000},
+    },
+    "C16": {
+        "level": "exploration",
+        "rule": "each evaluation is one operation sequence run against the real Reassembler / IntervalSet<u8|u64|PacketNumber> / "
+                "ack::Ranges / packet::number::Map / SlidingWindow and an independent executable model (byte map, BTreeSet, BTreeMap, "
+                "window rule), compared after EVERY operation (return value, error class, every observable incl. a full content "
+                "snapshot, bytes = position-keyed PRF). Random sequences are boundary-biased (slot edge 4096, allocation edges "
+                "65536 / 262144 / 1 MiB, 2^62-n, window edges 127/128/129); the exhaustive job enumerates ALL sequences of depth 3 "
+                "(quick) / 4 (thorough) over a 40-symbol alphabet placed on the real 4096-byte slot edge; the Miri jobs interpret a "
+                "small workload (UB, uninitialised reads, invalid retags abort the process and are violations). Non-trivial = the "
+                "sequence hit at least one non-boring class (overlap classes, slot/allocation edges, rejections, evictions ...); "
+                "distinct = hash of (structure, set of classes hit).",
+        "assumptions": ["the slot size of the reassembler is a private constant, so the exhaustive alphabet sits on the real 4096-byte edge",
+                        "Miri interprets the harness as well: its workloads are small (about 150 operations per process)"],
+        "tiers": {
+            "quick": [
+                bin_job("vq-c16", lambda seed, n: [["--mode", "random", "--seed", seed * 1000 + i, "--iters", 5000] for i in range(n)],
+                        "vq-c16:random 16x5000", replay=lambda rep, path: ["--replay", path]),
+                bin_job("vq-c16", lambda seed, n: [["--mode", "exhaustive", "--depth", 3, "--alphabet", "small"]], "vq-c16:exhaustive depth 3"),
+                miri_job("vq-c16", lambda seed, n: [["--mode", "miri", "--seed", seed * 100 + i, "--iters", 120] for i in range(4)],
+                         "vq-c16:miri 4x120 ops", ["--mode", "miri", "--seed", 0, "--iters", 2], timeout=1200),
+            ],
+            "thorough": [
+                bin_job("vq-c16", lambda seed, n: [["--mode", "random", "--seed", seed * 1000 + i, "--iters", 400000] for i in range(n)],
+                        "vq-c16:random 16x400000", replay=lambda rep, path: ["--replay", path]),
+                bin_job("vq-c16", lambda seed, n: [["--mode", "exhaustive", "--depth", 4, "--alphabet", "small", "--start", i * 160000, "--iters", 160000]
+                                                   for i in range(16)], "vq-c16:exhaustive depth 4 (2.56M sequences)"),
+                bin_job("vq-c16", lambda seed, n: [["--mode", "exhaustive", "--depth", 3, "--alphabet", "full"]], "vq-c16:exhaustive depth 3 full alphabet"),
+                miri_job("vq-c16", lambda seed, n: [["--mode", "miri", "--seed", seed * 100 + i, "--iters", 400] for i in range(16)],
+                         "vq-c16:miri 16x400 ops", ["--mode", "miri", "--seed", 0, "--iters", 2], timeout=3600),
+            ],
+        },
+        "min_quick": {"evaluations": 100_000, "ops": 1_500_000, "bytes_compared": 500_000_000, "edge.across_slot": 50_000},
+        "min_thorough": {"evaluations": 8_000_000},
     },
     "C12": {
         "level": "exploration",
